@@ -551,7 +551,7 @@ inline double to_SI_q(int q, double v, const std::string &u) {
     C20_FOR_ALL_QUANTITIES(X)
 #undef X
   }
-  throw VerifAbort(__FILE__, __LINE__, "bad quantity index");
+  throw VerifAbort{__FILE__, __LINE__, "bad quantity index"};
 }
 inline double to_unit_q(int q, double v, const std::string &u) {
   switch (q) {
@@ -561,7 +561,7 @@ inline double to_unit_q(int q, double v, const std::string &u) {
     C20_FOR_ALL_QUANTITIES(X)
 #undef X
   }
-  throw VerifAbort(__FILE__, __LINE__, "bad quantity index");
+  throw VerifAbort{__FILE__, __LINE__, "bad quantity index"};
 }
 
 // dimension of each Quantity (definition; order L T M K A)
